@@ -648,7 +648,7 @@ func parseContractText(pkg, fname, text string) (*ContractFile, error) {
 			for _, m := range strings.Split(rest, ",") {
 				cur.Modifies = append(cur.Modifies, strings.TrimSpace(m))
 			}
-		case "guarded":
+		case "guarded", "puremethod":
 			if err := flush(); err != nil {
 				return nil, err
 			}
